@@ -17,7 +17,8 @@
    checker, call validation, buildFinalPlan's tests) is run on the text and compared -- accepted
    / rejected, the error position, the stage that rejected (inside Parser.Parse or after it),
    and for accepted statements the checked trees (field references by name) and every
-   statement / clause position.  A difference is code 1, a rejection position outside the
+   statement / clause position; the references between the fields of a statement that passed the
+   cycle test can be ranked (the premise of C14's statement theorems).  A difference is code 1, a rejection position outside the
    query code 2, one that is no token start code 3, a text outside the model code 99.
    A case with corigin = 3 is an accepted statement: its trees (before and after constant
    folding) and statement positions are checked against the provenance invariant of
@@ -27,7 +28,7 @@
 From Coq Require Import String Ascii ZArith NArith List Bool.
 From KV Require Import Model.Token Model.Ast Model.ErrRender Model.ErrPos Spec.CaretSpec Model.Lexer.
 From KV Require Import Base.Flt Model.StmtParser Model.ParseCheck.
-From KV Require Model.Checker.
+From KV Require Model.Checker Proofs.SelectProofs.
 Import ListNotations.
 Local Open Scope string_scope.
 Local Open Scope Z_scope.
@@ -204,6 +205,21 @@ Definition pa_spec_code (c : ncase) : nat :=
     else 0
   else 0.
 
+(* A statement that passed checkFieldCycles (every statement parse_check does not reject in the
+   middle of parsing): the references between its fields can be ranked -- the premise
+   [fields_ranked] of C14's statement theorems (Properties/C14.v), in its computable form
+   SelectProofs.ranked_b, evaluated here on every accepted statement; failing it is code 1 (the
+   cycle test let through a statement the theorems do not cover). *)
+Definition pa_ranked (s : stmt) : bool :=
+  match s with
+  | StSelect x =>
+      (* (a field that is only a field name is never resolved and the cycle test skips it:
+         outside the theorems by their second premise, fields_no_bare) *)
+      negb (SelectProofs.no_bare_b (combine (s_names x) (s_fields x)))
+      || SelectProofs.ranked_b (combine (s_names x) (s_fields x))
+  | _ => true
+  end.
+
 Definition pa_code (c : ncase) : nat :=
   match parse_check prim_fops (cquery c) with
   | PCOutOfModel => 99
@@ -214,7 +230,8 @@ Definition pa_code (c : ncase) : nat :=
       | v => v
       end
   | PCOk s cs aggr =>
-      if (cerr c =? 0)%nat then pa_accept_code c s cs
+      if negb (pa_ranked s) then 1
+      else if (cerr c =? 0)%nat then pa_accept_code c s cs
       else if aggr && (pa_stage c =? 1)%nat then 99      (* AggregatePlan.Init: not modelled *)
       else match pa_spec_code c with O => 1 | v => v end
   end.
